@@ -690,6 +690,15 @@ func (c16) staleReverseAnswer(sc core.Scenario, r *core.R) {
 			r.Violate("reverse-foreign-answer", "a reverse call made on the re-established connection failed (%v) after handlers of the old connection finished", o.Err)
 		}
 	}
+	if sc.I("wire") == 1 {
+		// C14's view of the same history: whatever was dropped or written around the reconnect, nothing but
+		// whole JSON-RPC messages may have been put on the wire
+		probeUntilHealthy(c, r, core.Grace)
+		for _, e := range env.Px.ProtoErrors() {
+			r.Violate("frame-corrupt:stale-reverse", "after handlers of the old connection finished on a re-established connection: %s", e)
+		}
+		r.Obs("frames_validated", int64(len(env.Px.Frames())))
+	}
 	r.Key(fmt.Sprintf("stale-reverse-answer %s old=%d noping=%d", kind, nOld, sc.I("noping")), true)
 	r.Obs("reverse_calls", int64(2*nOld))
 	r.Sig(core.Log.Signature())
